@@ -52,7 +52,8 @@ type PfcpServer struct {
 	trToCh       chan TransactionTimeout
 	done         chan struct{} // closed when the main loop has stopped
 	conn         *net.UDPConn
-	connMu       sync.Mutex // guards conn and stopped between main() and Stop()
+	connMu       sync.Mutex // guards conn, started and stopped between main(), Start() and Stop()
+	started      bool
 	stopped      bool
 	recoveryTime time.Time
 	driver       forwarder.Driver
@@ -241,6 +242,9 @@ func (s *PfcpServer) receiver(wg *sync.WaitGroup) {
 
 func (s *PfcpServer) Start(wg *sync.WaitGroup) {
 	s.log.Infoln("starting pfcp server")
+	s.connMu.Lock()
+	s.started = true
+	s.connMu.Unlock()
 	wg.Add(1)
 	go s.main(wg)
 	s.log.Infoln("pfcp server started")
@@ -251,12 +255,18 @@ func (s *PfcpServer) Stop() {
 	s.connMu.Lock()
 	s.stopped = true
 	conn := s.conn
+	started := s.started
 	s.connMu.Unlock()
 	if conn != nil {
 		err := conn.Close()
 		if err != nil {
 			s.log.Errorf("Stop pfcp server err: %+v", err)
 		}
+	}
+	if started {
+		// The event loop still serves what is queued; the caller closes the driver
+		// next, so wait until the loop has made its last driver call.
+		<-s.done
 	}
 }
 
